@@ -19,6 +19,8 @@ for m in sorted(glob.glob(os.path.join(VERIF, 'seeded', '*', 'meta.json'))):
             verdict = 'undecided (exit 2): ' + (und[0].split('reason=')[1][:110] if und else '')
         else:
             verdict = 'not caught (outside the decided part)'
+        if d.get('note') and c['exit'] != 1:
+            verdict += ' -- note: ' + d['note'][:150].replace('|', '/')
         rows.append((name, prop, 'yes' if ev.get('confirmed') else 'NO', (d.get('what_it_breaks') or '')[:110].replace('|', '/').replace('\n', ' '),
                      (str(d.get('needs_to_manifest') or ''))[:110].replace('|', '/').replace('\n', ' '), verdict.replace('|', '/')))
 out = ['# Seeded changes', '',
